@@ -102,7 +102,7 @@ PROPS = {
         "assumptions": ["Go pointer sharing of the end marker is unobservable (Insert never descends into it; shown by the model's case split and exercised by the suite)"],
     },
     "C16": {
-        "proof_modules": ["GrolProofs.Props.C16"],
+        "proof_modules": ["GrolProofs.Props.C16", "GrolProofs.LexStream"],
         "theorems": ["Grol.Lexer.C16.cases", "Grol.Lexer.C16.progress", "Grol.Lexer.C16.tiling", "Grol.Lexer.C16.flags",
                      "Grol.Lexer.C16.literal_span", "Grol.Lexer.C16.string_span", "Grol.Lexer.C16.linecomment_span",
                      "Grol.Lexer.C16.blockcomment_span", "Grol.Lexer.C16.no_nil_no_panic", "Grol.Lexer.C16.sticky_step",
@@ -110,7 +110,12 @@ PROPS = {
                      "Grol.Lexer.C16.lookupIdent_keyword", "Grol.Lexer.C16.keywords_never_ident",
                      "Grol.Lexer.C16.intern_unique", "Grol.Lexer.C16.interning_partial", "Grol.Lexer.C16.next_wf",
                      "Grol.Lexer.C16.initTable_nodup", "Grol.Lexer.resolve_den", "Grol.Lexer.nextCore_spec", "Grol.Lexer.readStringLoop_spec",
-                     "Grol.Lexer.blockLoop_spec", "Grol.Lexer.readNumber_spec", "Grol.Lexer.skipWhitespace_spec"],
+                     "Grol.Lexer.blockLoop_spec", "Grol.Lexer.readNumber_spec", "Grol.Lexer.skipWhitespace_spec",
+                     "Grol.Lexer.C16.interning", "Grol.Lexer.C16.interning_lexer", "Grol.Lexer.den_inj", "Grol.Lexer.resolveAll_den",
+                     "Grol.Lexer.appendRune_eq", "Grol.Lexer.readStringLoop_agree", "Grol.Lexer.readString_eq_spec",
+                     "Grol.Lexer.C16.string_literal", "Grol.Lexer.C16.unterminated_string",
+                     "Grol.Lexer.skipWhitespace_flags", "Grol.Lexer.C16.lineInv_next", "Grol.Lexer.C16.lastNewLine_le",
+                     "Grol.Lexer.C16.flags_exact", "Grol.Lexer.C16.after_linecomment", "Grol.LexStream.lexer_streamWF"],
         "suites": ["lex"],
         "rule": "lex suite: every case is one byte string in one lexer mode (f = lexer.NewBytes, l = lexer.NewLineMode); the observation is "
                 "every NextToken call up to the first end marker plus 3 more calls (type, literal, Pos before/after, HadWhitespace, "
